@@ -10,6 +10,8 @@ EXTENDS Naturals, Sequences, FiniteSets, TLC, Json, IOUtils, SequencesExt
 
 Trace == ndJsonDeserialize(IOEnv.TRACE_FILE)
 VARIABLES l, b, cs, commits, viol1, viols, stats
+(* goroutines whose DialAndSend meets a refused dial (begin event; absent in hand-written replays) *)
+Refused == IF "refused" \in DOMAIN b THEN {b.refused[i] : i \in DOMAIN b.refused} ELSE {}
 tvars == <<l, b, cs, commits, viol1, viols, stats>>
 Ev == Trace[l]
 F(name, ok) == IF ok THEN {} ELSE {name}
@@ -67,8 +69,12 @@ Step ==
        [] Ev.ev = "ret" ->
             /\ viol1' = viol1
                  \* (a message whose recipients the scenario rejects is committed zero times and reported as failed)
-                 \cup F("C13_ExactlyOnce", \A p \in 1..b.n : Cardinality({i \in DOMAIN commits : commits[i] = p}) = (IF p = b.reject THEN 0 ELSE 1))
-                 \cup F("C13_Delivered", \A i \in DOMAIN Ev.res : IF Ev.res[i].p = b.reject THEN (~Ev.res[i].delivered /\ Ev.res[i].err)
+                 \* (the messages of a DialAndSend whose dial the server refused may stay undelivered: at most once, and the report says which)
+                 \cup F("C13_ExactlyOnce", \A p \in 1..b.n : LET c == Cardinality({i \in DOMAIN commits : commits[i] = p}) IN
+                                                                IF p \in Refused THEN c <= 1 ELSE c = (IF p = b.reject THEN 0 ELSE 1))
+                 \cup F("C13_Delivered", \A i \in DOMAIN Ev.res : IF Ev.res[i].p \in Refused
+                                                                     THEN (Ev.res[i].delivered <=> (\E k \in DOMAIN commits : commits[k] = Ev.res[i].p))
+                                                                     ELSE IF Ev.res[i].p = b.reject THEN (~Ev.res[i].delivered /\ Ev.res[i].err)
                                                                      ELSE (Ev.res[i].delivered /\ ~Ev.res[i].err))
             /\ stats' = [stats EXCEPT !.skipped = @ + Ev.skipped]
             /\ UNCHANGED <<b, cs, commits, viols>>
